@@ -172,7 +172,7 @@ def m_struct_pack(I, args, kwargs):
         if not I.decide(z3.And(x >= lo, x <= hi)):
             I.raise_exc(struct.error, 'argument out of range')
         if signed:
-            x = I.rw(z3.If(x < 0, x + 256 ** n, x))
+            x = I.rw(x % (256 ** n))
         parts.append(pack_uint(I, x, n, little))
     return I.norm_seq_value(I.rw(I.mk_concat(parts)), bytes)
 
@@ -795,6 +795,35 @@ def m_be_bytes(I, args, kwargs):
     return I.norm_seq_value(pack_uint(I, I.int_term(args[0]), n, False), bytes)
 
 
+def _stream(I, v):
+    if isinstance(v, Ref) and isinstance(I.cell(v), StreamCell):
+        return I.cell(v)
+    raise OutOfReach('stream expected, got %r' % (v,))
+
+
+def m_sdata(I, args, kwargs):
+    return I.norm_seq_value(_stream(I, args[0]).data, bytes)
+
+
+def m_spos(I, args, kwargs):
+    return I.wrap_int(_stream(I, args[0]).pos)
+
+
+def m_rest(I, args, kwargs):
+    c = _stream(I, args[0])
+    ln = z3.Length(c.data)
+    return I.norm_seq_value(I.rw(z3.Extract(c.data, c.pos, ln - c.pos)), bytes)
+
+
+def m_at_end(I, args, kwargs):
+    c = _stream(I, args[0])
+    return I.wrap_bool(c.pos == z3.Length(c.data))
+
+
+def m_clsof(I, args, kwargs):
+    return I.pytype(args[0])
+
+
 def m_hash_spec(names):
     def f(I, args, kwargs):
         v = args[0]
@@ -854,6 +883,11 @@ def build_models(I):
     reg(binascii.unhexlify, m_unhexlify)
     reg(io.BytesIO, m_bytesio)
     from . import dsl as _dsl
+    reg(_dsl.sdata, m_sdata)
+    reg(_dsl.spos, m_spos)
+    reg(_dsl.rest, m_rest)
+    reg(_dsl.at_end, m_at_end)
+    reg(_dsl.clsof, m_clsof)
     reg(_dsl.le_int, m_le_int)
     reg(_dsl.be_int, m_be_int)
     reg(_dsl.le_bytes, m_le_bytes)
